@@ -18,7 +18,9 @@ import enum
 import sys
 
 _TRACKED = None  # [(label, live object, pristine deep copy)]
+_SCALARS = None  # [(namespace object (module or class), {name: value bound at snapshot time})]
 _KINDS = (dict, list, set, bytearray)
+_SIMPLE = (type(None), bool, int, float, str, bytes, tuple, frozenset)
 
 
 def _put(obj, content) -> None:
@@ -34,8 +36,12 @@ def _put(obj, content) -> None:
         obj[:] = content
 
 
+def _simple_names(ns):
+    return {n: v for n, v in vars(ns).items() if not n.startswith("__") and isinstance(v, _SIMPLE)}
+
+
 def ensure():
-    global _TRACKED
+    global _TRACKED, _SCALARS
     if _TRACKED is not None:
         return _TRACKED
     import han.autodecoder  # noqa: F401 - pulls in every decoder module
@@ -43,6 +49,7 @@ def ensure():
 
     seen = set()
     out = []
+    scalars = []
 
     def track(label, obj):
         if not isinstance(obj, _KINDS) or id(obj) in seen:
@@ -58,16 +65,35 @@ def ensure():
 
     for mname in sorted(m for m in sys.modules if m == "han" or m.startswith("han.")):
         mod = sys.modules[mname]
+        scalars.append((mod, _simple_names(mod)))  # rebinding a module-level name (a flag, a counter, 'last seen type') is state too
         for name, val in sorted(vars(mod).items()):
             if name.startswith("__"):
                 continue
             track(f"{mname}.{name}", val)
             if isinstance(val, type) and getattr(val, "__module__", None) == mname and not issubclass(val, enum.Enum):
+                scalars.append((val, _simple_names(val)))
                 for an, av in sorted(vars(val).items()):
                     if not an.startswith("__"):
                         track(f"{mname}.{name}.{an}", av)
     _TRACKED = out
+    _SCALARS = scalars
     return out
+
+
+def _scalar_changes():
+    for ns, was in _SCALARS or ():
+        now = _simple_names(ns)
+        for n in now.keys() | was.keys():
+            if n not in was:
+                # a name bound later: state only if simple (functions/classes bound later are lazy imports, not state)
+                yield ns, n, False, None
+            elif n not in now:
+                if n in vars(ns):
+                    yield ns, n, True, was[n]  # re-bound to something that is not simple any more
+                else:
+                    yield ns, n, True, was[n]
+            elif now[n] is not was[n] and now[n] != was[n]:
+                yield ns, n, True, was[n]
 
 
 def changed():
@@ -79,6 +105,8 @@ def changed():
                 out.append(label)
         except Exception:  # noqa: BLE001
             out.append(label)
+    for ns, n, _, _ in _scalar_changes():
+        out.append(f"{getattr(ns, '__module__', None) or ''}{'.' if hasattr(ns, '__module__') else ''}{getattr(ns, '__name__', ns)}.{n}")
     return out
 
 
@@ -89,11 +117,20 @@ def reset() -> None:
                 _put(obj, snap)
         except Exception:  # noqa: BLE001
             _put(obj, snap)
+    for ns, n, had, val in list(_scalar_changes()):
+        try:
+            if had:
+                setattr(ns, n, val)
+            else:
+                delattr(ns, n)
+        except Exception:  # noqa: BLE001
+            pass
 
 
 @contextlib.contextmanager
 def clean():
     saved = [(obj, copy.deepcopy(obj)) for _, obj, snap in ensure() if obj != snap]
+    rebound = [(ns, n, vars(ns).get(n)) for ns, n, _, _ in _scalar_changes() if n in vars(ns)]
     reset()
     try:
         yield
@@ -101,3 +138,5 @@ def clean():
         reset()
         for obj, content in saved:
             _put(obj, content)
+        for ns, n, val in rebound:
+            setattr(ns, n, val)
